@@ -177,3 +177,18 @@ Qed.
 
 Theorem has_param_spec p name : has_param p name = true <-> lookup name p <> None.
 Proof. unfold has_param. destruct (lookup name p); split; intro H; congruence. Qed.
+
+(* what the harness compares the implementation with (reference mapping, reference getters on
+   it) is what the model computes *)
+Theorem harness_oracles_sound s kb csv p name required mn mx bat :
+  forallb scalar s = true -> req_params s kb csv = Ok p ->
+  p = ref_parse s kb csv /\
+  get_param true p name required = spec_get Some never never (ref_parse s kb csv) name required /\
+  get_param_as_int true p name required mn mx
+  = spec_get py_int (below mn) (above mx) (ref_parse s kb csv) name required /\
+  get_param_as_bool true p name required bat
+  = spec_get (bool_of bat) never never (ref_parse s kb csv) name required.
+Proof.
+  intros Hs H. rewrite (req_params_is_reference s kb csv Hs) in H. injection H as <-.
+  repeat split; [apply get_param_is_spec | apply int_getter_is_spec | apply bool_getter_is_spec].
+Qed.
